@@ -101,14 +101,14 @@ func (c *listenerConn) waitIdle() bool {
 	select {
 	case <-c.idle:
 		return true
-	case <-time.After(20 * time.Second):
+	case <-time.After(10 * time.Second):
 		return false
 	}
 }
 func (c *listenerConn) deliver(data []byte, from net.Addr) bool {
 	select {
 	case c.in <- listenerPkt{data, from}:
-	case <-time.After(20 * time.Second):
+	case <-time.After(10 * time.Second):
 		return false
 	}
 	return c.waitIdle()
@@ -548,11 +548,18 @@ func (c *listenerCase) pkt(d listenerDg) {
 	wire := append([]byte(nil), d.wire...)
 	if c.via {
 		if !c.conn.deliver(wire, a) {
-			c.violate("listener-stalled", "the listener's read loop did not come back for the next datagram within 20 s")
+			c.violate("listener-stalled", fmt.Sprintf("the listener's read loop did not come back within 10 s after a datagram %s conv %d sn %d from %s (backlog %d/%d)", d.class, d.conv, d.sn, key, p.snap.qlen, cap(c.l.chAccepts)))
 			return
 		}
 	} else {
-		c.l.packetInput(wire, a)
+		done := make(chan struct{})
+		go func() { c.l.packetInput(wire, a); close(done) }()
+		select {
+		case <-done:
+		case <-time.After(10 * time.Second):
+			c.violate("listener-stalled", fmt.Sprintf("Listener.packetInput did not return within 10 s for a datagram %s conv %d sn %d from %s (backlog %d/%d)", d.class, d.conv, d.sn, key, p.snap.qlen, cap(c.l.chAccepts)))
+			return
+		}
 	}
 
 	q := c.snap()
@@ -1649,7 +1656,8 @@ func listenerCloseRaceCase(t *testing.T, rep *vreport) {
 		"release s1.mu: the parked Close calls closeSession(peer-a)", "Accept -> s2", "datagram conv=2 sn=1 from peer-a"}
 	l.packetInput(seg(1, 0), a)
 	if len(l.chAccepts) != 1 {
-		t.Fatal("close-race: setup failed")
+		rep.violate("listener-double-accept", fmt.Sprintf("close-race setup: the first datagram of a new peer queued %d sessions", len(l.chAccepts)), map[string]any{"steps": steps[:1]})
+		return
 	}
 	s1, _ := l.AcceptKCP()
 	s1.mu.Lock()
@@ -1660,7 +1668,8 @@ func listenerCloseRaceCase(t *testing.T, rep *vreport) {
 	}
 	if !s1.isClosed() {
 		s1.mu.Unlock()
-		t.Fatal("close-race: Close did not start")
+		rep.violate("listener-harness", "close-race: Close did not close die within 5 s", map[string]any{"steps": steps[:3]})
+		return
 	}
 	l.packetInput(seg(2, 0), a)
 	s1.mu.Unlock()
@@ -1704,6 +1713,13 @@ func TestVerifC11(t *testing.T) {
 	rng := newRng(vSeed())
 	lg := newVlog(t, "C11.log")
 	rep := newReport("C11")
+	defer func() {
+		lg.close()
+		rep.write(t, "C11.report.json")
+		for _, v := range rep.Violations {
+			t.Logf("violation %s: %s", v.Key, v.What)
+		}
+	}()
 	nRandom, steps, depth, nReal, rounds := 200, 220, 3, 4, 2
 	if vThorough() {
 		nRandom, steps, depth, nReal, rounds = 1200, 400, 4, 40, 6
@@ -1729,9 +1745,4 @@ func TestVerifC11(t *testing.T) {
 	rep.Extra["orders_depth"] = depth
 	rep.Extra["random_cases"] = nRandom
 	rep.Extra["nontrivial_rule"] = "a listener case with >=1 conversation reset, >=1 dropped datagram of a foreign conversation and >=2 simultaneously live sessions"
-	lg.close()
-	rep.write(t, "C11.report.json")
-	for _, v := range rep.Violations {
-		t.Logf("violation %s: %s", v.Key, v.What)
-	}
 }
